@@ -50,10 +50,21 @@ SplitRows == {[kind |-> "split", t |-> t, s |-> s, path |-> <<>>, ok |-> Assigna
 (* literals: what the compiler accepts must validate at run time *)
 LitRows == UNION {{[kind |-> "lit", t |-> t, v |-> v, valid |-> Valid(t, v)] : v \in Values(t)} : t \in Types}
 
+
+(* which parameters a call statement supplies: a call (of a stage, of a pipeline, the
+   top-level call) is well-typed exactly when the names it binds are the callee's
+   declared inputs - nothing missing (this includes the call with no bindings at all),
+   nothing unknown; a return statement likewise for the declared outputs *)
+ArityNames == {"a", "b"}
+ArityRows == {[kind |-> "arity", where |-> w, decl |-> SetSeq(D), given |-> SetSeq(G), ok |-> G = D]
+              : w \in {"stage", "pipeline", "top", "return"}, D \in SUBSET ArityNames, G \in SUBSET (ArityNames \cup {"c"})}
+ASSUME \A r \in ArityRows : (r.given = <<>> /\ r.decl # <<>>) => ~r.ok
+
 (* sanity: projecting a type and then asking for exactly that type is accepted *)
 ASSUME \A s \in {x \in Types : StructBase(x)} : \A p \in PathsOf(s.b, 2) :
           LET pt == ProjType(P, s, p) IN pt \in Types => Assignable(pt, pt)
 
 ASSUME ndJsonSerialize("wt_rows.ndjson", SetSeq(RefRows \cup ProjRows \cup MapRows \cup MapProjRows \cup SplitRows))
 ASSUME ndJsonSerialize("wt_lits.ndjson", SetSeq(LitRows))
+ASSUME ndJsonSerialize("wt_arity.ndjson", SetSeq(ArityRows))
 =============================================================================
